@@ -27,7 +27,7 @@ BUDGET = {
     "quick": {"cases": 12000, "seconds": 90, "shards": 8},
     "thorough": {"cases": 300000, "seconds": 900, "shards": 16},
 }
-REQUIRED_OBS = ["instance_history_cases", "arcs_checked", "pdf_checked", "k>n-1", "tied_kth_distance", "eliminate_positive", "eliminate_nonpositive", "all_equal_density",
+REQUIRED_OBS = ["exhaustive_small_graph_cases", "instance_history_cases", "arcs_checked", "pdf_checked", "k>n-1", "tied_kth_distance", "eliminate_positive", "eliminate_nonpositive", "all_equal_density",
                 "pre_computed_cases", "displacing_insertion", "bound_fallback_to_1"]
 MIN_NONTRIVIAL = 150
 
@@ -224,3 +224,36 @@ def shrink(case):
             yield {**case, "X": case["X"][:i] + case["X"][i + 1:]}
     if case["k"] > 1:
         yield {**case, "k": case["k"] - 1}
+
+
+def extra(tier, seed, shard=0, nshards=1):
+    """Bounded-exhaustive pass: every symmetric weight matrix over a small alphabet on 3..5 nodes (all tie patterns, including
+    zero distances) x every k in 1..n+1, as a pre-computed matrix with a reversed index array."""
+    out, agg, n_cases = [], Result(), 0
+    seen = set()
+    for n, D, _Y in gen.exhaustive_small_graphs(tier, shard, nshards):
+        key = D.tobytes()
+        if key in seen:
+            continue
+        seen.add(key)
+        D0 = D - 1.0                      # alphabet shifted to start at 0: exact zero distances between distinct samples too
+        np.fill_diagonal(D0, 0.0)
+        for M in (D, D0):
+            I = list(range(n))[::-1]
+            DD = np.zeros((n, n))
+            for a in range(n):
+                for b in range(n):
+                    DD[I[a], I[b]] = M[a, b]
+            for k in range(1, n + 2):
+                case = {"X": [[float(i)] for i in I], "k": k, "metric": "euclidean", "gclass": "EXH", "history": False,
+                        "pre": {"D": DD.tolist(), "I": I}, "h": [1.0, 0.0]}
+                r = check(case)
+                n_cases += 1
+                if r.violations:
+                    out.append((case, r))
+                else:
+                    agg.obs.update(r.obs)
+    agg.see("exhaustive_small_graph_cases", n_cases)
+    agg.cell("exhaustive-small-graphs", tier)
+    out.append(({"exhaustive_small_graphs": {"tier": tier, "cases_this_shard": n_cases}}, agg))
+    return out
